@@ -16,7 +16,7 @@
 
 extern uint32_t _cbor_unicode_decode(uint32_t* state, uint32_t* codep, uint32_t byte) __attribute__((weak));
 
-enum { K_PAIRS = VC_USER, K_PTRANS, K_SETHANDLE, K_BUILD, K_LOAD, K_VALID, K_INVALID, K_FAULTS, K_LONG };
+enum { K_PAIRS = VC_USER, K_PTRANS, K_SETHANDLE, K_BUILD, K_LOAD, K_VALID, K_INVALID, K_FAULTS, K_LONG, K_SWEEP };
 
 /* ---- incremental reference validator (RFC 3629 section 4 ranges) */
 typedef struct { uint8_t need, lo, hi; bool rej; } rst;
@@ -41,7 +41,7 @@ static uint32_t rkey(rst s) { return s.rej ? 0xffffff : (uint32_t)s.need << 16 |
 
 static vf_sb sb;
 static unsigned nmax;
-static uint64_t product_units = 1, bn_units = 65537, fault_units = 16;
+static uint64_t product_units = 1, bn_units = 65537, fault_units = 16, sweep_units = 64;
 
 static void product_search(void) {
   vf_case("product", "", 0);
@@ -106,15 +106,19 @@ static void judge_text(const uint8_t* s, size_t n, bool all_paths, bool distinct
   int64_t rc = ref_utf8_count(s, n);
   size_t want = rc < 0 ? 0 : (size_t)rc;
   vf_cnt(rc < 0 ? K_INVALID : K_VALID, 1);
-  /* (1) cbor_string_set_handle on an existing definite string */
-  if (n <= 8) {
-    memcpy(reuse_handle, s, n);
-    cbor_string_set_handle(reuse_item, reuse_handle, n);
-    vf_cnt(K_SETHANDLE, 1);
-    if (cbor_string_codepoint_count(reuse_item) != want)
-      vf_fail(NULL, "cbor_string_set_handle: codepoint count %zu, RFC 3629 count %s%zu", cbor_string_codepoint_count(reuse_item), rc < 0 ? "(invalid) " : "", want);
-    if (cbor_string_length(reuse_item) != n || cbor_string_handle(reuse_item) != reuse_handle || memcmp(reuse_handle, s, n))
-      vf_fail(NULL, "cbor_string_set_handle changed length or content");
+  /* (1) cbor_string_set_handle on an existing definite string, at every alignment of the handle for longer strings */
+  if (n <= 100) {
+    for (unsigned off = 0; off < (n >= 4 ? 8u : 1u); off++) {
+      unsigned char* h = reuse_handle + off;
+      memcpy(h, s, n);
+      cbor_string_set_handle(reuse_item, h, n);
+      vf_cnt(K_SETHANDLE, 1);
+      if (cbor_string_codepoint_count(reuse_item) != want)
+        vf_fail(NULL, "cbor_string_set_handle (handle at offset %u of its block): codepoint count %zu, RFC 3629 count %s%zu", off, cbor_string_codepoint_count(reuse_item), rc < 0 ? "(invalid) " : "", want);
+      if (cbor_string_length(reuse_item) != n || cbor_string_handle(reuse_item) != h || memcmp(h, s, n))
+        vf_fail(NULL, "cbor_string_set_handle changed length or content");
+    }
+    cbor_string_set_handle(reuse_item, reuse_handle, 0);
   }
   if (!all_paths) return;
   /* (2) cbor_build_stringn */
@@ -226,22 +230,62 @@ static void fault_unit(uint64_t u) {
     judge_text(big, n, true, true);
   }
 }
+/* position sweep: every string ASCII^p . probe . ASCII^s (and two probes with an ASCII gap) up to a total length that spans several
+ * machine words - the counting loop must be the plain fold over the DFA at every offset, length and alignment (word-at-a-time or
+ * vectorised shortcuts are position dependent) */
+static const char* PROBE_HEX[] = {"c3a9", "e282ac", "f09f9880", "dfbf", "efbfbf", "f48fbfbf", "ff", "80", "bf", "c0", "c1", "c3", "e282", "f09f98", "eda080", "edbfbf", "e08080", "f08080",
+                                  "f4908080", "f8888080", "c328", "e228a1", "e28228", "f0288cbc", "f09028bc", "c080", "e0a080", "f0908080", "7f", "00", NULL};
+static void sweep_unit(uint64_t u) {
+  unsigned maxlen = vf_tier ? 40 : 26;
+  uint8_t probes[32][4];
+  size_t plen[32], np = 0;
+  for (; PROBE_HEX[np]; np++) plen[np] = vf_unhex(probes[np], 4, PROBE_HEX[np]);
+  uint8_t sbuf[128];
+  unsigned idx = 0;
+  for (unsigned p = 0; p <= maxlen; p++)
+    for (size_t k = 0; k < np; k++, idx++) {
+      if (idx % sweep_units != u) continue;
+      for (unsigned sfx = 0; p + plen[k] + sfx <= maxlen; sfx++) {
+        size_t n = 0;
+        for (unsigned i = 0; i < p; i++) sbuf[n++] = (uint8_t)('a' + i % 26);
+        memcpy(sbuf + n, probes[k], plen[k]);
+        n += plen[k];
+        for (unsigned i = 0; i < sfx; i++) sbuf[n++] = (uint8_t)('A' + i % 26);
+        vf_cnt(K_SWEEP, 1);
+        judge_text(sbuf, n, true, true);
+      }
+      /* a second probe after an ASCII gap */
+      for (size_t k2 = 0; k2 < np; k2 += 3)
+        for (unsigned gap = 0; p + plen[k] + gap + plen[k2] <= (maxlen < 24 ? maxlen : 24); gap++) {
+          size_t n = 0;
+          for (unsigned i = 0; i < p; i++) sbuf[n++] = 'x';
+          memcpy(sbuf + n, probes[k], plen[k]);
+          n += plen[k];
+          for (unsigned i = 0; i < gap; i++) sbuf[n++] = 'y';
+          memcpy(sbuf + n, probes[k2], plen[k2]);
+          n += plen[k2];
+          vf_cnt(K_SWEEP, 1);
+          judge_text(sbuf, n, true, false);
+        }
+    }
+}
 static void unit(uint64_t u) {
   va_cap = 1 << 20;
   if (u < product_units) { product_search(); return; }
+  if (u >= product_units + bn_units + fault_units) { sweep_unit(u - product_units - bn_units - fault_units); return; }
   u -= product_units;
   if (u < bn_units) { bn_unit(u); return; }
   u -= bn_units;
   fault_unit(u);
 }
-static uint64_t units(void) { return product_units + bn_units + fault_units; }
+static uint64_t units(void) { return product_units + bn_units + fault_units + sweep_units; }
 static void init(void) {
   va_install();
   vf_guard_end();
   nmax = vf_tier ? 4 : 3;
   va_cap = 1 << 20;
   reuse_item = cbor_new_definite_string();
-  reuse_handle = va_malloc(16);
+  reuse_handle = va_malloc(128);
   cbor_string_set_handle(reuse_item, reuse_handle, 0);
 }
 static void replay(const char* tag, const uint8_t* d, size_t len) {
@@ -257,14 +301,17 @@ struct vf_check vf_the_check = {
     .rule = "(a) explicit-state search of the product of the library's UTF-8 DFA (stepped through the real _cbor_unicode_decode) and an RFC 3629 range validator: all 256 "
             "transitions from every reachable state pair, to fixpoint (states = reachable pairs, transitions = pair x byte steps executed on the implementation); "
             "(b) every byte sequence of length <= n through cbor_string_set_handle, cbor_build_stringn and cbor_load, plus all sequences of <= 3 scalars over a 10-scalar boundary "
-            "alphabet with one fault byte of 20 classes inserted / overwritten at every position and every single-byte deletion. distinct_nontrivial = reachable product pairs + "
-            "distinct byte sequences of part (b)",
+            "alphabet with one fault byte of 20 classes inserted / overwritten at every position and every single-byte deletion; (c) position sweep: every string "
+            "ASCII^p . probe . ASCII^s for 30 probes (valid 2/3/4-byte scalars, stray / truncated / overlong / surrogate / out-of-range sequences) and every p, s with total length <= 26 (40 thorough), "
+            "plus two probes separated by every ASCII gap (total <= 24), each through all three API paths and, for set_handle, at all 8 alignments of the handle. distinct_nontrivial = reachable "
+            "product pairs + distinct byte sequences of parts (b) and (c)",
     .bounds = {"product automaton to fixpoint (unbounded input length); all byte sequences of length <= 3", "product automaton to fixpoint; all byte sequences of length <= 4 (2^32)"},
     .assumptions = {"RFC 3629 validator in this file / vf_ref.c:ref_utf8_count is correct (pinned against all 1 112 064 scalar values and a boundary table by ./vf setup)",
                     "the unbounded-length claim of (a) relies on the counting loop being the plain left fold over _cbor_unicode_decode that increments on ACCEPT and stops on REJECT; "
-                    "(b) tests exactly that loop end to end on every short sequence and on a 3000-byte string",
+                    "(b) tests exactly that loop end to end on every short sequence and on a 3000-byte string, and (c) at every offset / length / handle alignment up to several machine words, "
+                    "because a word-at-a-time or vectorised shortcut in front of the DFA loop is position dependent (seeded change C16 is exactly that)",
                     "indefinite strings do not aggregate their chunks' counts; the property speaks of definite strings only"},
     .counters = {[VC_EVAL] = "cases_judged", [VC_DISTINCT] = "distinct_nontrivial", [VC_TRANS] = "product_transitions", [VC_TRACES] = "executed_on_implementation",
                  [K_PAIRS] = "product_states_expanded", [K_PTRANS] = "product_transitions_checked", [K_SETHANDLE] = "set_handle_calls", [K_BUILD] = "build_stringn_calls",
-                 [K_LOAD] = "cbor_load_calls", [K_VALID] = "valid_utf8_inputs", [K_INVALID] = "invalid_utf8_inputs", [K_FAULTS] = "fault_injections", [K_LONG] = "long_strings"},
+                 [K_LOAD] = "cbor_load_calls", [K_VALID] = "valid_utf8_inputs", [K_INVALID] = "invalid_utf8_inputs", [K_FAULTS] = "fault_injections", [K_LONG] = "long_strings", [K_SWEEP] = "position_sweep_strings"},
     .init = init, .units = units, .unit = unit, .replay = replay};
